@@ -172,17 +172,42 @@ pub fn specs(tier: Tier) -> Vec<GenSpec> {
     }
 }
 
+/// weighted A* (weight factor above 1) re-opens vertices that were already expanded: a vertex whose label improves after
+/// its children were labelled leaves them with states computed from the old label. Networks with edge lengths comparable to
+/// the heuristic (metric lengths on the lattice and on the uneven line) x moderate weight factors, distance-only world
+pub fn reopening_specs(tier: Tier) -> Vec<GenSpec> {
+    vec![
+        GenSpec { n: 5, max_edges: tier.pick(4, 5), max_mult: 1, n_len: 3, self_loops: false, mode: LenMode::Metric },
+        GenSpec { n: 5, max_edges: 5, max_mult: 1, n_len: 3, self_loops: false, mode: LenMode::LineMetric },
+    ]
+}
+
+pub fn reopening_algos() -> Vec<Algo> {
+    vec![Algo::AStar(Some(1.5)), Algo::AStar(Some(2.0)), Algo::AStar(Some(3.0)), Algo::AStar(Some(5.0)), Algo::AStar(Some(10.0))]
+}
+
 pub fn run(tier: Tier) -> i32 {
     let info = RunInfo::new("C03", tier);
     let specs = specs(tier);
-    let st = par_enumerate(&specs, |_spec, net, st| {
+    let mut st = par_enumerate(&specs, |_spec, net, st| {
         let idx = net.hash_idx();
         for_net(net, tier, idx, st);
         if net.n == 4 && net.m() == 4 {
             st.sample(1, || json!({"example_world": worlds(net, tier, idx).first()}));
         }
     });
-    let desc: Vec<String> = specs.iter().map(|s| s.describe()).collect();
+    let rspecs = reopening_specs(tier);
+    let st2 = par_enumerate(&rspecs, |_spec, net, st| {
+        st.states += 1;
+        let w = World::distance(net.clone());
+        for algo in reopening_algos().iter() {
+            check_case(&w, algo, &Orient::Vertex { o: 0, d: Some(net.n - 1) }, false, st);
+            check_case(&w, algo, &Orient::Vertex { o: 0, d: Some(net.n - 1) }, true, st);
+        }
+    });
+    st.merge(st2);
+    let mut desc: Vec<String> = specs.iter().map(|s| s.describe()).collect();
+    desc.extend(rspecs.iter().map(|s| format!("{} under A* weight factors 1.5/2/3/5/10", s.describe())));
     finish(
         &info,
         st,
